@@ -45,8 +45,10 @@ TEnv == Is("Env") /\ Step /\ UNCHANGED corev /\ Keep
 \*      logged by the driver before the sentinel publishes them)
 TMaster   == Is("Master") /\ Step /\ Report("m", {Ev.a}) /\ Keep
 TReplicas == Is("Replicas") /\ Step /\ Report("r", ToSet(Ev.list)) /\ Keep
+\* (Ev.set: the master-set name the announcement carries; the sentinels publish the events of every master set they
+\*  monitor, only those of the client's own set are reports about its master)
 TPush     == /\ Is("Push") /\ Step /\ Keep
-             /\ IF Ev.ch \in {"switch", "rebootm"} THEN Report("m", {Ev.a}) ELSE UNCHANGED corev
+             /\ IF Ev.ch \in {"switch", "rebootm"} /\ Concerns(Ev.set) THEN Report("m", {Ev.a}) ELSE UNCHANGED corev
 
 \* ---- data node side: ROLE answered (logged under the node's dispatcher mutex)
 TRole == Is("Role") /\ Step /\ RoleAns(Ev.a, Ev.ans) /\ Keep
